@@ -624,74 +624,6 @@ def run(tier):
                       "explanation": "RecordTokenization is called with a size that is not syntactically a length: a negative size (or the 'not set' sentinel -1) makes the smallest-query metric wrong"},
                      "size_arg_" + re.sub(r"\W+", "_", c["pos"]), no_input=True)
 
-    # ---- footprint table of package-level state
-    bad_cells, known_cells = gen10.unprotected_pairs(gt)
-    classes = {}
-    for c in gt["cells"]:
-        k = gt["info"].get(c, {}).get("class", "?")
-        classes[k] = classes.get(k, 0) + 1
-    written = sorted({a["cell"] for a in gt["acc"] if a["write"] and not a["init"] and a["kind"] in ("plain", "escape")})
-    rp.cov["footprint"] = {"cells": len(gt["cells"]), "access_sites": len(gt["acc"]), "distinct_site_descriptions": len(gt["rows"]), "cell_classes": classes,
-                           "cells_written_outside_init_by_plain_stores": {c: sorted({h for a in gt["acc"] if a["cell"] == c and a["write"] and not a["init"] for h in (a["held"] or ["once:" + a.get("once", "")])}) for c in written},
-                           "escapes_to_external_functions": sorted({"%s -> %s" % (a["cell"], a.get("callee")) for a in gt["acc"] if a["kind"] == "escape"}),
-                           "notes": static.get("access_notes") or []}
-    for k, cell in gt["known"]:
-        if cell in known_cells:
-            rp.known(k["key"], k["what"])
-        else:
-            rp.cov["notes"].append("stale known finding (cell is protected now): " + k["key"])
-    for k, cell in gt["stale"]:
-        rp.cov["notes"].append("stale known finding (cell no longer exists): " + k["key"])
-    race_hits = {}
-    # one report per package-level variable (its cells are listed), at most 4 targeted searches
-    roots = {}
-    for cell in sorted(bad_cells):
-        roots.setdefault(".".join(cell.split(".")[:2]), []).append(cell)
-    searches = 0
-    for root, cells_of_root in sorted(roots.items()):
-        cell = cells_of_root[0]
-        pairs = bad_cells[cell]
-        a, b = pairs[0]
-        wa = [x for x in gt["where"][a]][:3]
-        wb = [x for x in gt["where"][b]][:3]
-        pkgc = cell.split(".")[0]
-        base = {"kind": "table-gap", "theorem": "Inst_C10.globals_ok", "cell": cell, "class": gt["info"].get(cell, {}).get("class"),
-                "type": gt["info"].get(cell, {}).get("type"),
-                "access_1": {"write": a[1], "kind": a[2], "held": list(a[3]), "once": a[4], "sites": [{"func": x["func"], "pos": x["pos"]} for x in wa]},
-                "access_2": {"write": b[1], "kind": b[2], "held": list(b[3]), "once": b[4], "sites": [{"func": x["func"], "pos": x["pos"]} for x in wb]},
-                "unprotected_pairs": sum(len(bad_cells[c]) for c in cells_of_root), "variable": root, "cells": cells_of_root[:40]}
-        # aim the race detector at it: hammer the operations that reach the package
-        ops = PKG_OPS.get(pkgc)
-        files = {x["pos"].split(":")[0] for c_ in cells_of_root for pr in bad_cells[c_][:3] for k_ in pr for x in gt["where"][k_][:3]}
-        found = None
-        inputs_t = workload(random.Random(common.seed()), "quick")[:30]
-        searches += 1
-        for n in ((4, nc) if searches <= 4 and not HANGS else ()):
-            rc, res, races, err = run_mix(n, 300, common.seed() + n, inputs_t, ops=ops)
-            evals += 1
-            hit = [r for r in races if any(w.split(":")[0] in files for w in r["where"])]
-            if hit:
-                found = {"mode": "mix", "n": n, "ops_per_g": 300, "seed": common.seed() + n, "inputs": inputs_t, "ops": ops, "report": hit[0]}
-                race_hits[cell] = hit[0]
-                break
-        if not found and searches <= 4:
-            # second aim: many distinct malformed inputs (state keyed by what was seen so far: caches reach their eviction paths)
-            wide = wide_inputs()
-            rc, res, races, err = run_mix(nc, 1500, common.seed() + 7, wide, ops=ops)
-            evals += 1
-            hit = [r for r in races if any(w.split(":")[0] in files for w in r["where"])]
-            if hit:
-                found = {"mode": "mix", "n": nc, "ops_per_g": 1500, "seed": common.seed() + 7, "inputs_generator": "wide_inputs(2400)", "ops": ops, "report": hit[0]}
-                race_hits[cell] = hit[0]
-        if found:
-            base.update(found)
-            base["explanation"] = "unsynchronised access to package-level state %s — %s reported at %s while %d goroutines ran %s" % (
-                cell, found["report"]["kind"], ", ".join(found["report"]["where"][:2]), found["n"], ops or "all operations")
-        else:
-            base["explanation"] = ("package-level state %s is accessed without a common mutex / Once / atomic operation (%s at %s vs %s at %s): the footprint instance lemma no longer holds" % (
-                cell, "write" if a[1] else "read", wa[0]["pos"] if wa else "?", "write" if b[1] else "read", wb[0]["pos"] if wb else "?"))
-        rp.violation(base, "footprint_" + re.sub(r"\W+", "_", root if len(cells_of_root) > 1 else cell), no_input=not found)
-    mark("footprint table and aimed race searches")
     # ---- lock discipline: the acquisition table (Lock / RLock sites with may-held sets) must admit a rank
     rp.cov["lock_order"] = {"mutexes": {m: lt["rank"][m] for m in lt["muts"]}, "acquisition_sites": len(lt["acqs"]), "distinct_rows": len(lt["rows"]),
                             "nested_sites": [{"mutex": a["cell"], "mode": a["mode"], "may_held": a["may_held"], "func": a["func"], "pos": a["pos"]} for a in lt["acqs"] if a["may_held"]],
@@ -769,12 +701,83 @@ def run(tier):
         else:
             base["explanation"] = what + " — the instance lemma no longer holds for the regenerated exit table"
         rp.violation(base, "lockleak_" + re.sub(r"\W+", "_", mutex), no_input=not found)
+    mark("lock order / lock leaks and hang searches")
+    # ---- footprint table of package-level state
+    bad_cells, known_cells = gen10.unprotected_pairs(gt)
+    classes = {}
+    for c in gt["cells"]:
+        k = gt["info"].get(c, {}).get("class", "?")
+        classes[k] = classes.get(k, 0) + 1
+    written = sorted({a["cell"] for a in gt["acc"] if a["write"] and not a["init"] and a["kind"] in ("plain", "escape")})
+    rp.cov["footprint"] = {"cells": len(gt["cells"]), "access_sites": len(gt["acc"]), "distinct_site_descriptions": len(gt["rows"]), "cell_classes": classes,
+                           "cells_written_outside_init_by_plain_stores": {c: sorted({h for a in gt["acc"] if a["cell"] == c and a["write"] and not a["init"] for h in (a["held"] or ["once:" + a.get("once", "")])}) for c in written},
+                           "escapes_to_external_functions": sorted({"%s -> %s" % (a["cell"], a.get("callee")) for a in gt["acc"] if a["kind"] == "escape"}),
+                           "notes": static.get("access_notes") or []}
+    for k, cell in gt["known"]:
+        if cell in known_cells:
+            rp.known(k["key"], k["what"])
+        else:
+            rp.cov["notes"].append("stale known finding (cell is protected now): " + k["key"])
+    for k, cell in gt["stale"]:
+        rp.cov["notes"].append("stale known finding (cell no longer exists): " + k["key"])
+    race_hits = {}
+    # one report per package-level variable (its cells are listed), at most 4 targeted searches
+    roots = {}
+    for cell in sorted(bad_cells):
+        roots.setdefault(".".join(cell.split(".")[:2]), []).append(cell)
+    searches = 0
+    for root, cells_of_root in sorted(roots.items()):
+        cell = cells_of_root[0]
+        pairs = bad_cells[cell]
+        a, b = pairs[0]
+        wa = [x for x in gt["where"][a]][:3]
+        wb = [x for x in gt["where"][b]][:3]
+        pkgc = cell.split(".")[0]
+        base = {"kind": "table-gap", "theorem": "Inst_C10.globals_ok", "cell": cell, "class": gt["info"].get(cell, {}).get("class"),
+                "type": gt["info"].get(cell, {}).get("type"),
+                "access_1": {"write": a[1], "kind": a[2], "held": list(a[3]), "once": a[4], "sites": [{"func": x["func"], "pos": x["pos"]} for x in wa]},
+                "access_2": {"write": b[1], "kind": b[2], "held": list(b[3]), "once": b[4], "sites": [{"func": x["func"], "pos": x["pos"]} for x in wb]},
+                "unprotected_pairs": sum(len(bad_cells[c]) for c in cells_of_root), "variable": root, "cells": cells_of_root[:40]}
+        # aim the race detector at it: hammer the operations that reach the package
+        ops = PKG_OPS.get(pkgc)
+        files = {x["pos"].split(":")[0] for c_ in cells_of_root for pr in bad_cells[c_][:3] for k_ in pr for x in gt["where"][k_][:3]}
+        found = None
+        inputs_t = workload(random.Random(common.seed()), "quick")[:30]
+        searches += 1
+        for n in ((4, nc) if searches <= 4 and not HANGS else ()):
+            rc, res, races, err = run_mix(n, 300, common.seed() + n, inputs_t, ops=ops, timeout=120)
+            if rc == HUNG:
+                note_hang("a goroutine mix aimed at %s did not finish" % cell)
+                break
+            evals += 1
+            hit = [r for r in races if any(w.split(":")[0] in files for w in r["where"])]
+            if hit:
+                found = {"mode": "mix", "n": n, "ops_per_g": 300, "seed": common.seed() + n, "inputs": inputs_t, "ops": ops, "report": hit[0]}
+                race_hits[cell] = hit[0]
+                break
+        if not found and searches <= 4:
+            # second aim: many distinct malformed inputs (state keyed by what was seen so far: caches reach their eviction paths)
+            wide = wide_inputs()
+            rc, res, races, err = run_mix(nc, 1500, common.seed() + 7, wide, ops=ops)
+            evals += 1
+            hit = [r for r in races if any(w.split(":")[0] in files for w in r["where"])]
+            if hit:
+                found = {"mode": "mix", "n": nc, "ops_per_g": 1500, "seed": common.seed() + 7, "inputs_generator": "wide_inputs(2400)", "ops": ops, "report": hit[0]}
+                race_hits[cell] = hit[0]
+        if found:
+            base.update(found)
+            base["explanation"] = "unsynchronised access to package-level state %s — %s reported at %s while %d goroutines ran %s" % (
+                cell, found["report"]["kind"], ", ".join(found["report"]["where"][:2]), found["n"], ops or "all operations")
+        else:
+            base["explanation"] = ("package-level state %s is accessed without a common mutex / Once / atomic operation (%s at %s vs %s at %s): the footprint instance lemma no longer holds" % (
+                cell, "write" if a[1] else "read", wa[0]["pos"] if wa else "?", "write" if b[1] else "read", wb[0]["pos"] if wb else "?"))
+        rp.violation(base, "footprint_" + re.sub(r"\W+", "_", root if len(cells_of_root) > 1 else cell), no_input=not found)
+    mark("footprint table and aimed race searches")
     if not ok_inst and not defects and not bad_cells and not lt["bad"] and not lt["leaks"]:
         rp.violation({"kind": "proof", "theorem": "Inst_C10", "log": logs["inst"][-3000:]}, "inst_c10", no_input=True)
     if ok_inst and not ok_props:
         rp.violation({"kind": "proof", "theorem": "Props/C10.v", "log": logs["props"][-3000:]}, "props_c10", no_input=True)
 
-    mark("lock order / lock leaks and hang searches")
     # ---- sequential correspondence of the translated programs (validates the translator against the real functions)
     if ok_inst is not False or True:
         evals += run_seq_correspondence(rp, tabs, rng, 120 if quick else 1200)
